@@ -342,3 +342,9 @@ B('C19.scan-from-start-of-input', ['C19'], [(P + 'common/parse.py', "        for
 for _t in ('swap-if-branches', 'return-via-local', 'nested-if-for-and', 'expand-augassign', 'flip-order-comparisons', 'split-pair-unpacking',
            'ifexp-to-statement', 'early-exit', 'while-true'):
     N('benign.mech.' + _t, transform=_t)
+B('C03.exact-size-accepts-one-extra-byte', ['C03'], [(P + 'common/parse.py', "        if len(parsable) > parsed_length:\n            raise TooMuchData(parsed_length)",
+                                                       "        if len(parsable) > parsed_length + 1:\n            raise TooMuchData(parsed_length)")], mention=['C03.R1'])
+N('benign.entry-points-delegate', [(P + 'common/parse.py', "    def parse_mutable(cls, parsable):\n        parsed_object, parsed_length = cls._parse(parsable)\n",
+                                     "    def parse_mutable(cls, parsable):\n        parsed_object, parsed_length = cls.parse_immutable(parsable)\n"),
+                                    (P + 'common/parse.py', "    def parse_exact_size(cls, parsable):\n        parsed_object, parsed_length = cls._parse(parsable)\n        if len(parsable) > parsed_length:\n",
+                                     "    def parse_exact_size(cls, parsable):\n        parsed_object, parsed_length = cls.parse_immutable(parsable)\n        has_trailing_data = len(parsable) > parsed_length\n        if has_trailing_data:\n")])
